@@ -110,7 +110,15 @@ typedef PLK::type Payload;
 //------------------------------------------------------------------------------------------------
 // contexts
 
-struct Ctx { uint64_t tag; uint64_t touched; };
+// the user's context type tells copies from moves (a machine that is moved must move its value context)
+uint32_t g_ctx_copies = 0, g_ctx_moves = 0;
+struct Ctx {
+	uint64_t tag; uint64_t touched;
+	Ctx() : tag(0), touched(0) {}
+	Ctx(const Ctx& o) : tag(o.tag), touched(o.touched) { ++g_ctx_copies; }
+	Ctx(Ctx&& o) noexcept : tag(o.tag), touched(o.touched) { ++g_ctx_moves; }
+	Ctx& operator = (const Ctx& o) { tag = o.tag; touched = o.touched; return *this; }
+};
 
 #if   SUT_CTX_KIND == 0
 typedef ffsm2::EmptyContext CtxT;
@@ -926,7 +934,13 @@ void sut_serial_bytes(const void* sbmem, uint8_t* out) {
 	const Inst::SerialBuffer* sb = static_cast<const Inst::SerialBuffer*>(sbmem);
 	memcpy(out, sb->data(), sizeof(Inst::SerialBuffer::Data));
 }
+int sut_serial_compare(const void* a, const void* b) {
+	const Inst::SerialBuffer& x = *static_cast<const Inst::SerialBuffer*>(a);
+	const Inst::SerialBuffer& y = *static_cast<const Inst::SerialBuffer*>(b);
+	return ((x == y) ? 1 : 0) | ((x != y) ? 2 : 0);
+}
 #else
+int sut_serial_compare(const void*, const void*) { return -1; }
 void sut_serial_init(void*, int) {}
 int  sut_save(const void*, void*) { return -1; }
 int  sut_load(void*, const void*) { return -1; }
@@ -959,6 +973,7 @@ int sut_is_active_tmpl(const void* inst, int idx) { return (idx >= 0 && idx < SU
 
 const void* sut_context_addr(const void* inst) { return ctx_addr(CI_(inst)->context()); }
 uint64_t    sut_context_tag (const void* inst) { return ctx_tag (CI_(inst)->context()); }
+void        sut_context_counts(uint32_t* copies, uint32_t* moves) { *copies = g_ctx_copies; *moves = g_ctx_moves; }
 
 const void* sut_access_addr(void* inst, int idx) {
 	if (idx >= 0 && idx < SUT_N) return g_access[idx](*I_(inst));
